@@ -55,6 +55,12 @@ prop("C13", stems=["Rdd2"], props=["Props/C13.v"], falsify="falsify_C13",
      technique="Coq proof (SSA slicing + lra case analysis) over a model regenerated from source by a translator",
      explanation="allocator contracts for all thrust/moment demands and all positive constants")
 
+prop("C07", stems=["SO3Quat", "SO3Mrp", "SO3Dcm", "SO3Euler"], props=["Props/C07.v"], falsify="falsify_C07",
+     level_text="Kernel-checked on the regenerated model: quaternion/MRP/Euler -> DCM, matrix/DCM/MRP/Euler -> quaternion (unit norm; all four Shepperd branches for EVERY proper rotation matrix, branches exhaustive), quaternion/matrix/DCM/Euler -> MRP (norm <= 1) preserve the rotation matrix; the shadow switch never changes the rotation, lands in the unit ball and is the identity inside it; quaternion, MRP and Euler matrices are proper rotations (orthonormal, det 1). Guard: quaternion -> MRP excludes q = (-1,0,0,0) (division by 1+q0). Partial: conversions INTO Euler angles (asin/atan2 with the +-1e-3 gimbal branches), the pitch range and the in-band 1e-3 tolerance are covered by the numeric search only.",
+     level_note=GEN_NOTE,
+     technique="Coq proof (field/lra/nsatz, sqrt lemmas) over a model regenerated from source by a translator",
+     explanation="conversion identities for all valid source elements")
+
 prop("C16", stems=["Quadrotor"], props=["Props/C16.v"], falsify="falsify_C16",
      level_text="Kernel-checked theorems over the regenerated real-number model of quadrotor.derive_model(): q.qdot=0, quaternion and position kinematics, hover equilibrium, free-fall accelerometer, rotor-sum wrench (Euler and Newton equations), motor first-order law, translation and yaw equivariance, for ALL states, inputs and parameter vectors (parameters are symbolic). Not proved: the exponential closed-form motor response (only the ODE right-hand side), drag-on branch of the force sum.",
      level_note=GEN_NOTE + "Numeric search on the real functions (harness/falsify_C16.py) supports replay generation only.",
